@@ -6,7 +6,7 @@
 
 use std::cmp::Ordering;
 use std::collections::BTreeMap;
-use rpki::rtr::state::Serial;
+use rpki::rtr::state::{Serial, State};
 use rpki_verif::engine::enumerate::par_chunks;
 use rpki_verif::{guard, Ctx};
 
@@ -33,7 +33,7 @@ fn main() {
         vec![0, 1, 0x7FFF_FFFF, 0x8000_0000, 0x8000_0001, 0xFFFF_FFFF, 0xDEAD_BEEF, 0x7FFF_FFFFu32.wrapping_add(12345),
              2, 0xFFFF_FFFE, 0x0000_FFFF, 0x0001_0000, 0x5555_5555, 0xAAAA_AAAA, 0x4000_0000, 0xC000_0000]
     } else {
-        vec![0, 0x7FFF_FFFF, 0xFFFF_FFFF]
+        vec![0x7FFF_FFFF, 0xFFFF_FFFF]
     };
 
     // (1) comparison over all differences
@@ -95,7 +95,7 @@ fn main() {
     // (2) add
     let sp = ctx.space("add.all_increments",
         "for each base b and every n in 0..2^31: b.add(n) == b+n mod 2^32 and (n>0 => b.add(n) > b, b < b.add(n)); n >= 2^31 must panic (boundary values); non-trivial = n > 0");
-    let add_bases: Vec<u32> = if ctx.tier.is_thorough() { bases.clone() } else { vec![0x8000_0001, 0xFFFF_FFFF] };
+    let add_bases: Vec<u32> = if ctx.tier.is_thorough() { bases.clone() } else { vec![0xFFFF_FFFF] };
     for &b in &add_bases {
         par_chunks(1u64 << 31, 1 << 22, |lo, hi| {
             let mut bad = None;
@@ -192,6 +192,83 @@ fn main() {
     sp.merge_outcomes(&oc);
     sp.sample_str(|| format!("domain of {} points", dom.len()));
     sp.done(true, "all pairs x all shifts of the boundary domain");
+
+    // (5) the library's own way of advancing a serial: State::inc, for every serial
+    let sp = ctx.space("state.inc.all_values",
+        "for every x in 0..2^32: State::from_parts(s, x).inc() leaves the session alone and yields serial x+1 mod 2^32, which compares strictly greater than x; non-trivial = every x (distinct), the wrap at x = 2^32-1 included");
+    par_chunks(1u64 << 32, 1 << 22, |lo, hi| {
+        let mut bad: Option<(u32, String)> = None;
+        let r = guard(|| {
+            for x in lo..hi {
+                let x = x as u32;
+                let mut st = State::from_parts(0x1234, Serial(x));
+                st.inc();
+                let ok = st.session() == 0x1234 && st.serial().0 == x.wrapping_add(1)
+                    && st.serial().partial_cmp(&Serial(x)) == Some(Ordering::Greater);
+                if !ok && bad.is_none() { bad = Some((x, format!("after inc: session={:#x} serial={:#x}", st.session(), st.serial().0))); }
+            }
+        });
+        if let Err(p) = r { ctx.fail("C16.state.inc", format!("chunk={lo:#x}..{hi:#x}"), p) }
+        sp.evals(hi - lo); sp.nontrivial(hi - lo);
+        if let Some((x, d)) = bad { ctx.fail("C16.state.inc", format!("x={x:#x}"), d); }
+    });
+    sp.outcomes_n("advanced", (1u64 << 32) - 1); sp.outcomes_n("wrapped-to-zero", 1);
+    sp.sample_str(|| { let mut st = State::from_parts(1, Serial(u32::MAX)); st.inc(); format!("State(1, 0xffffffff).inc() -> serial {}", st.serial()) });
+    sp.done(true, "all 2^32 serials");
+
+    // (6) wire conversion as the PDUs do it: every PDU that carries a serial
+    let sp = ctx.space("wire.pdus",
+        "for every serial of a boundary-dense set (all octet patterns from {00,01,7f,80,fe,ff}^4 plus all multiples of 65537) x versions 0..2: SerialNotify, SerialQuery, SerialQueryPayload and EndOfData written by the library carry the serial as 4 big-endian octets at offset 8 (offset 0 for the bare payload) and read back to the same serial via serial()/state(); non-trivial = serials whose 4 octets are not a palindrome");
+    let mut serials: Vec<u32> = Vec::new();
+    let pat = [0x00u8, 0x01, 0x7f, 0x80, 0xfe, 0xff];
+    for a in pat { for b in pat { for c in pat { for d in pat { serials.push(u32::from_be_bytes([a, b, c, d])) } } } }
+    let mut k = 0u64; while k < (1u64 << 32) { serials.push(k as u32); k += 65537; }
+    serials.sort(); serials.dedup();
+    let timing = rpki::rtr::payload::Timing { refresh: 3600, retry: 600, expire: 7200 };
+    let nt = std::sync::atomic::AtomicU64::new(0);
+    rpki_verif::engine::enumerate::par_for(serials.len() as u64, |i| {
+        let x = serials[i as usize];
+        let be = x.to_be_bytes();
+        if be != [be[3], be[2], be[1], be[0]] { nt.fetch_add(3, std::sync::atomic::Ordering::Relaxed); }
+        for version in 0u8..=2 {
+            let st = State::from_parts(0xBEEF, Serial(x));
+            let wit = || format!("serial={x:#010x} version={version}");
+            let r = guard(|| -> Result<(), String> {
+                use futures_util::FutureExt;
+                use rpki::rtr::pdu;
+                let mut out: Vec<u8> = Vec::new();
+                pdu::SerialNotify::new(version, st).write(&mut out).now_or_never().ok_or("write pending")?.map_err(|e| e.to_string())?;
+                if out.len() != 12 || out[8..12] != be { return Err(format!("SerialNotify wire {:02x?}", out)) }
+                let back = pdu::SerialNotify::read(&mut &out[..]).now_or_never().ok_or("read pending")?.map_err(|e| e.to_string())?;
+                if back != pdu::SerialNotify::new(version, st) { return Err("SerialNotify does not read back equal".into()) }
+                let mut out: Vec<u8> = Vec::new();
+                pdu::SerialQuery::new(version, st).write(&mut out).now_or_never().ok_or("write pending")?.map_err(|e| e.to_string())?;
+                if out.len() != 12 || out[8..12] != be { return Err(format!("SerialQuery wire {:02x?}", out)) }
+                let pl = pdu::SerialQueryPayload::read(&mut &out[8..]).now_or_never().ok_or("read pending")?.map_err(|e| e.to_string())?;
+                if pl.serial() != Serial(x) || pdu::SerialQueryPayload::new(Serial(x)).serial() != Serial(x) { return Err(format!("SerialQueryPayload reads serial {:#x}", pl.serial().0)) }
+                let mut out: Vec<u8> = Vec::new();
+                let eod = pdu::EndOfData::new(version, st, timing);
+                eod.write(&mut out).now_or_never().ok_or("write pending")?.map_err(|e| e.to_string())?;
+                let want_len = if version == 0 { 12 } else { 24 };
+                if out.len() != want_len || out[8..12] != be { return Err(format!("EndOfData wire {:02x?}", out)) }
+                if eod.serial() != Serial(x) || eod.state().serial() != Serial(x) || eod.state().session() != 0xBEEF { return Err(format!("EndOfData::serial() of a built PDU gives {:#x}", eod.serial().0)) }
+                let hdr = pdu::Header::read(&mut &out[..8]).now_or_never().ok_or("read pending")?.map_err(|e| e.to_string())?;
+                let back = pdu::EndOfData::read_payload(hdr, &mut &out[8..]).now_or_never().ok_or("read pending")?.map_err(|e| e.to_string())?;
+                if back.serial() != Serial(x) || back.state().serial() != Serial(x) || back.session() != 0xBEEF { return Err(format!("EndOfData read back gives serial {:#x}", back.serial().0)) }
+                Ok(())
+            });
+            sp.eval();
+            match r {
+                Ok(Ok(())) => {}
+                Ok(Err(d)) => ctx.fail("C16.wire.pdu", wit(), d),
+                Err(p) => ctx.fail("C16.wire.pdu", wit(), p),
+            }
+        }
+    });
+    sp.nontrivial(nt.load(std::sync::atomic::Ordering::Relaxed));
+    sp.outcomes_n("v0-end-of-data-12-octets", serials.len() as u64); sp.outcomes_n("v1v2-end-of-data-24-octets", 2 * serials.len() as u64);
+    sp.sample_str(|| format!("{} serials x 3 versions x 4 PDU kinds", serials.len()));
+    sp.done(true, "all serials of the stated set");
 
     ctx.finish();
 }
